@@ -941,6 +941,73 @@ def _g18(ctx):
         ctx.ob("G18", D + fname, f"{cname}.compute_config", "refused only when no setting inside the declared ranges meets the requests", bad["refused"] is None, bad["refused"] or "", fn)
 
 
+# Gowin on-chip oscillator: parts whose OSC runs at 210 MHz (DS100 / DS117: the -4 family incl. the RF variant); every other part 250 MHz.
+# Frozen from the pinned tree and the data sheets: the reference for any later change of the device test.
+GW1N_OSC_210 = ("GW1N-4", "GW1NR-4", "GW1N-4B", "GW1NR-4B", "GW1NRF-4B", "GW1N-4C", "GW1NR-4C")
+GW1N_OSC_250 = ("GW1N-1", "GW1NZ-1", "GW1N-9", "GW1NR-9", "GW1N-9C", "GW1N-2")
+
+
+def _g19(ctx):
+    """GW1NOSC.__init__ interpreted (primitives as opaque objects) for every part of the frozen device table x a request grid: the
+    emitted FREQ_DIV, applied to *that part's* oscillator frequency, meets the request within its margin and lies in osc_div_range;
+    refusal only when no divider of the range does; the DEVICE parameter is the part asked for."""
+    from .. import pyconst
+    from ..pyconst import NS
+    rel = D + "gowin_gw1n.py"
+    m = ctx.mod(rel)
+    fn = m.method("GW1NOSC", "__init__")
+    ctx.analysed["functions"].add(f"{rel}::GW1NOSC.__init__")
+    cdef = [c for c in m.tree.body if isinstance(c, ast.ClassDef) and c.name == "GW1NOSC"][0]
+    rng = None
+    for st in cdef.body:
+        if isinstance(st, ast.Assign) and norm(st.targets[0]) == "osc_div_range":
+            try:
+                rng = ast.literal_eval(st.value)
+            except (ValueError, SyntaxError):
+                pass
+    ctx.need(isinstance(rng, tuple) and len(rng) == 2, "GW1NOSC.osc_div_range is no longer a literal class attribute")
+    bad = {"div": None, "refused": None, "dev": None}
+    n_ok = n_ref = 0
+    for dev in GW1N_OSC_210 + GW1N_OSC_250:
+        osc = 210e6 if dev in GW1N_OSC_210 else 250e6
+        for f in (105e6, 35e6, 10.5e6, 125e6, 25e6, 12.5e6, 2.5e6, 3e6, 1e6):
+            for mg in (1e-3, 1e-2, 5e-2):
+                sat = [d for d in range(*rng) if f * (1 - mg) <= osc / d <= f * (1 + mg)]
+                me = NS(osc_div_range=rng, specials=[], logger=NS())
+                it = pyconst.Interp({"self": me, "device": dev, "freq": f, "margin": mg, "logging": NS()}, objects=True, exact=True,
+                                    funcs={x.name: x for x in m.tree.body if isinstance(x, ast.FunctionDef)})
+                what = f"GW1NOSC({dev!r}, {f!r} Hz, margin={mg}) [oscillator {osc / 1e6:.0f} MHz]"
+                refused = False
+                try:
+                    it.run(fn.body)
+                    refused = getattr(it, "result", None) is not None and it.result[0] == "raise"
+                except pyconst.Raised:
+                    refused = True
+                except Exception as ex:     # noqa
+                    ctx.need(False, f"GW1NOSC.__init__ cannot be interpreted: {type(ex).__name__}: {ex}")
+                if refused:
+                    n_ref += 1
+                    if sat:
+                        bad["refused"] = bad["refused"] or f"{what}: refused, although FREQ_DIV {sat[:3]} of osc_div_range {rng} meet the request"
+                    continue
+                inst = [o for o in it.created if o.cls == "Instance" and o.args and o.args[0] == "OSC"]
+                ctx.need(len(inst) == 1, "GW1NOSC.__init__ emits no single OSC instance the interpreter can read")
+                n_ok += 1
+                kw = inst[0].kwargs
+                if kw.get("p_FREQ_DIV") not in sat:
+                    d = kw.get("p_FREQ_DIV")
+                    bad["div"] = bad["div"] or f"{what}: FREQ_DIV = {d!r}" + (f" gives {osc / d / 1e6:.3f} MHz" if isinstance(d, int) and d else "") + \
+                        (f"; dividers that meet the request: {sat[:3]}" if sat else ": no divider meets the request, it must be refused")
+                if kw.get("p_DEVICE") != dev:
+                    bad["dev"] = bad["dev"] or f"{what}: DEVICE = {kw.get('p_DEVICE')!r}"
+    ctx.analysed["paths"] += n_ok + n_ref
+    ctx.ob("G19", rel, "GW1NOSC.__init__", "interpreted requests:present", n_ok >= 60 and n_ref >= 60, f"{n_ok} granted / {n_ref} refused", fn)
+    ctx.ob("G19", rel, "GW1NOSC.__init__", "FREQ_DIV applied to the part's own oscillator frequency meets the request (device table: 7 parts at 210 MHz, others 250 MHz)",
+           bad["div"] is None, bad["div"] or "", fn)
+    ctx.ob("G19", rel, "GW1NOSC.__init__", "refused only when no divider of osc_div_range meets the request", bad["refused"] is None, bad["refused"] or "", fn)
+    ctx.ob("G19", rel, "GW1NOSC.__init__", "DEVICE parameter = the part asked for", bad["dev"] is None, bad["dev"] or "", fn)
+
+
 def _g15(ctx):
     """GateMatePLL.do_finalize interpreted (lxs/pyconst.py, primitives as opaque objects) on model requests: the CC_PLL primitive is
     configured by two decimal strings and two doubler flags only, so those must reproduce the registered input frequency and every
@@ -1021,6 +1088,10 @@ def run(ctx):
                     "the whole space: returned settings recomputed from their multipliers / dividers meet every request within its margin "
                     "inside the ranges and the VCO window; refusal only when the enumeration is empty", min_sites=6)
     _g18(ctx)
+    ctx.rule("G19", "Gowin GW1N on-chip oscillator: for every part of the frozen device table the emitted FREQ_DIV, applied to that part's "
+                    "oscillator frequency (210 MHz for the -4 family incl. GW1NRF-4B, 250 MHz otherwise), meets the request; refusal only "
+                    "when no divider does", min_sites=4)
+    _g19(ctx)
     ctx.rule("G14", "declared windows are closed intervals: a computed frequency equal to a declared minimum / maximum passes every window "
                     "test of the search routines (non-strict acceptance, strict rejection)", min_sites=14)
     _g14(ctx)
